@@ -560,6 +560,7 @@ class EnvCTM():
         -------
         proj: Peps structure loaded with CTM projectors related to all lattice site.
         """
+        opts_svd = dict(opts_svd)  # defaults and per-move entries are added below; the caller's dictionary stays as it is
         if 'tol' not in opts_svd and 'tol_block' not in opts_svd:
             opts_svd['tol'] = 1e-14
 
